@@ -302,6 +302,9 @@ func (rn *runner) versionSweep() {
 	for _, mn := range vals {
 		for _, mx := range vals {
 			for li, es := range lists {
+				if (mn != 0 || mx != 0) && li >= 2 {
+					continue // the extension list is only consulted for (0, 0)
+				}
 				terms := make([]string, len(es))
 				for i, e := range es {
 					terms[i], _ = extcoq.ExtTerm(e)
